@@ -148,7 +148,11 @@ func genC17(verifSeed int64, tier string, idx int) *core.Scenario {
 		d := serialisableDoc(r, fmt.Sprintf("t%d", t), maxNodes)
 		sp.Docs = append(sp.Docs, docToB64(d))
 		var b []byte
-		switch r.Intn(10) {
+		switch r.Intn(12) {
+		case 10:
+			b = repoFile("bom-1.4.json") // documents from other producers: nested components, no bom-ref, services ...
+		case 11:
+			b = repoFile("bom-1.5.json")
 		case 0:
 			b = repoFile("minified.cdx.json")
 		case 1:
